@@ -1440,6 +1440,104 @@ fn x_c08_backlog_drop(r: &DuoRun, wm: &WireModel, ei: &EndInfo, o: &mut Outcome)
         }
     }
 }
+/// the local handle is dropped with a backlog and, while the queue is being flushed, the endpoint's
+/// own Sink starts failing (the transport breaks in the outgoing direction; the peer is not told):
+/// the connection has ended for that endpoint, its task, streams and calls must come to an end
+fn gen_c08_drop_then_sink_failure(r: &mut Prng, i: u64, t: Tier) -> Plan {
+    let mut p = gen_c08_backlog_drop(r, i, t);
+    p.faults.truncate(1);
+    let (at, x) = match &p.faults[0] {
+        Fault { at, kind: FaultKind::DropMux { ep } } => (*at, *ep),
+        _ => unreachable!(),
+    };
+    p.dg_tx.retain(|d| d.from == x);
+    // the peer's direction stays as it is (it hears nothing of the failure), goes silent, or fails too
+    let src = *r.pick(&[0u8, 0, 3, 1]);
+    p.faults.push(Fault { at: at + r.below(120) as u64, kind: FaultKind::Cut { from: x, sink_err: true, src, drop_inflight: r.chance(1, 2) } });
+    p
+}
+fn x_c08_drop_then_sink_failure(r: &DuoRun, wm: &WireModel, ei: &EndInfo, o: &mut Outcome) {
+    let lat = r.plan.link.latency_ms.max(1);
+    let dropper = r.plan.faults.iter().find_map(|f| if let FaultKind::DropMux { ep } = f.kind { Some(ep) } else { None });
+    let in_space = r.plan.faults.len() == 2
+        && dropper.is_some()
+        && r.plan.faults.iter().any(|f| matches!(f.kind, FaultKind::Cut { from, sink_err: true, .. } if Some(from) == dropper))
+        && r.plan.eps.iter().all(|e| e.keepalive_ms == [0, 0] || (e.keepalive_ms[0] >= 20 * lat && e.keepalive_ms[1] >= e.keepalive_ms[0]));
+    if !in_space {
+        o.violations.clear();
+        return;
+    }
+    let x = dropper.unwrap().min(1);
+    // a failure the endpoint cannot observe (its queue had gone out before the Sink broke, what is
+    // lost is lost in flight) is a silent link: without keepalive nothing can tell a dead peer
+    // from a slow one, and the wait for the peer's Close has no bound the property could name
+    if !r.link.lock().unwrap().sink_err_seen[x] && r.plan.eps[x].keepalive_ms[0] == 0 {
+        o.violations.clear();
+        o.probe("sink-failure-not-observable", 1);
+        return;
+    }
+    x_c08(r, wm, ei, o);
+    let led = r.led.borrow();
+    let cut = r.fired.iter().find(|f| f.0.starts_with("cut:")).map(|f| f.1);
+    if let (Some(d), Some(c)) = (led.mux_dropped[x], cut) {
+        let flushing = c > d && led.task_end[x].as_ref().is_none_or(|e| e.0 > c);
+        if flushing && r.link.lock().unwrap().sink_err_seen[x] {
+            o.probe("sink-failure-during-flush", 1);
+            if r.plan.eps[x].keepalive_ms[0] == 0 {
+                o.probe("sink-failure-during-flush-without-keepalive", 1);
+            }
+        }
+    }
+}
+/// the peer closes (its handle is dropped, or a forged Close arrives) and then the direction from
+/// that peer goes silent, keepalive nowhere: the endpoint that has consumed the Close knows that
+/// the connection has ended - its calls must resolve without the transport saying so once more
+/// (a WebSocket client waits for the server to close the transport after the closing handshake)
+fn gen_c08_close_then_silence(r: &mut Prng, _i: u64, _t: Tier) -> Plan {
+    let mut p = gen_c08_workload(r);
+    p.link.latency_ms = *r.pick(&[0u64, 0, 5]);
+    let x = r.below(2);
+    let span = *r.pick(&[12usize, 40, 120, 400]);
+    let at = r.below(span) as u64;
+    let kind = if r.chance(1, 2) { FaultKind::DropMux { ep: 1 - x } } else { FaultKind::PeerClose { to: x } };
+    p.faults.push(Fault { at, kind });
+    p.faults.push(Fault { at: at + r.below(40) as u64, kind: FaultKind::Cut { from: 1 - x, sink_err: false, src: 3, drop_inflight: false } });
+    if r.chance(2, 3) {
+        p.link.ws_client = (x + 1) as u8;
+    }
+    p
+}
+fn x_c08_close_then_silence(r: &DuoRun, wm: &WireModel, ei: &EndInfo, o: &mut Outcome) {
+    let closer = r.plan.faults.iter().find_map(|f| match f.kind {
+        FaultKind::DropMux { ep } => Some(ep.min(1)),
+        FaultKind::PeerClose { to } => Some(1 - to.min(1)),
+        _ => None,
+    });
+    let in_space = r.plan.faults.len() == 2
+        && closer.is_some()
+        && r.plan.faults.iter().any(|f| matches!(f.kind, FaultKind::Cut { from, sink_err: false, src: 3, drop_inflight: false } if Some(from.min(1)) == closer))
+        && r.plan.eps.iter().all(|e| e.keepalive_ms == [0, 0]);
+    if !in_space {
+        o.violations.clear();
+        return;
+    }
+    let x = 1 - closer.unwrap();
+    let cut = r.fired.iter().find(|f| f.0.starts_with("cut:")).map(|f| f.1);
+    // the Close itself was swallowed by the silence (or never sent): a dead link without
+    // keepalive, nobody can know that the connection has ended
+    if cut.is_some() && wm.close_consumed[x].is_none() {
+        o.violations.clear();
+        o.probe("close-lost-in-the-silence", 1);
+        return;
+    }
+    x_c08(r, wm, ei, o);
+    if cut.is_some() && wm.close_consumed[x].is_some() {
+        o.probe("close-then-silence", 1);
+        if r.plan.link.ws_client as usize == x + 1 {
+            o.probe("close-then-silence-at-the-websocket-client", 1);
+        }
+    }
+}
 fn nt_c08(r: &DuoRun, _wm: &WireModel, ei: &EndInfo) -> bool {
     ei.any_fault && (ei.judged[0] || ei.judged[1]) && r.steps > 20
 }
@@ -1453,9 +1551,11 @@ pub fn c08() -> Check {
             Box::new(sweep),
             fam("backlog", 100_000, 2_000_000, gen_c08_backlog, OracleCfg::default(), Some(x_c08), nt_c08, "the endpoint whose transport fails (sink error with a live or silent source, invalid frame, source error) runs no acceptor: its accept backlog (1-2 slots) is full and further Connect frames of the peer are in flight or buffered when the failure hits; its parked reader, get_datagram and open calls must still resolve and its task must return."),
             fam("drop-with-backlog", 30_000, 400_000, gen_c08_backlog_drop, OracleCfg::default(), Some(x_c08_backlog_drop), nt_c08, "the chaos workload plus a burst of 40-120 datagrams at the endpoint(s) about to drop their Multiplexor handle, on a link with room for 1-2 messages that takes 5-50 ms per message (back-pressure in poll_ready or, like tungstenite, in poll_flush), keepalive nowhere / everywhere / only at the endpoint that keeps its handle (interval 20-40 message times); one handle is dropped, or both within a few rounds. Judged: the general clauses (every task returns, nothing pending at quiescence) and, when one handle is dropped, the flush clauses: every datagram, byte, Finish and Reset accepted before the drop is on the wire before Close."),
+            fam("drop-then-sink-failure", 30_000, 400_000, gen_c08_drop_then_sink_failure, OracleCfg::default(), Some(x_c08_drop_then_sink_failure), nt_c08, "the drop-with-backlog workload with one handle dropped; within the next 0-120 scheduling rounds - typically while the queue is still being flushed - that endpoint's own Sink starts failing (outgoing direction broken; the peer's direction unchanged, silent or failing as well; messages in flight lost or not), keepalive nowhere / everywhere / only at the peer. Judged by the general clauses: the failing endpoint's task returns, the streams its application still holds and every pending call come to an end at quiescence."),
+            fam("close-then-silence", 40_000, 600_000, gen_c08_close_then_silence, OracleCfg::default(), Some(x_c08_close_then_silence), nt_c08, "the chaos workload without keepalive; one endpoint's handle is dropped (or a forged Close arrives at the other) and 0-40 scheduling rounds later the direction from the closing side goes silent - nothing fails, nothing more arrives, not even the end of the transport a WebSocket client waits for after the closing handshake. The endpoint that has consumed the peer's Close is judged by the general clauses: its task returns and nothing is pending at quiescence. Runs in which the silence swallowed the Close itself are not judged (nobody can know)."),
             fam("keepalive-expiry", 40_000, 600_000, gen_c08_keepalive, OracleCfg::default(), Some(x_c08_keepalive), nt_c08, "the chaos workload with keepalive on at one or both endpoints (interval 200-1000 ms, timeout 1-2 intervals) on a link that goes silent at a seeded scheduling round: one or both directions swallow what is sent from then on, no operation of the transport fails. Every endpoint with keepalive on must end (its pings or the pongs to them are lost), and from then on the general clauses apply: its task returned, no call pending at quiescence, reads drain then end, writes fail. Non-trivial as in chaos."),
         ],
-        vec!["late-call-after-end", "end-with-pending-operations", "end-while-writer-parked", "end-while-open-pending", "end-while-bind-pending", "drop-with-queued-frames", "silent-link-under-keepalive", "ended-by-keepalive-expiry", "silent-link-around-orderly-end", "drop-with-long-backlog", "both-handles-dropped-with-backlog", "drop-with-long-backlog-under-keepalive", "drop-with-long-backlog", "both-handles-dropped-with-backlog", "drop-with-long-backlog-under-keepalive", "fault:cut", "fault:peer-close", "fault:garbage", "fault:drop-mux"],
+        vec!["late-call-after-end", "end-with-pending-operations", "end-while-writer-parked", "end-while-open-pending", "end-while-bind-pending", "drop-with-queued-frames", "silent-link-under-keepalive", "ended-by-keepalive-expiry", "silent-link-around-orderly-end", "drop-with-long-backlog", "both-handles-dropped-with-backlog", "drop-with-long-backlog-under-keepalive", "sink-failure-during-flush", "sink-failure-during-flush-without-keepalive", "close-then-silence", "close-then-silence-at-the-websocket-client", "fault:cut", "fault:peer-close", "fault:garbage", "fault:drop-mux"],
     )
 }
 use crate::link::{Stage, Wire};
